@@ -14,11 +14,12 @@ def toy_model(D=0.1, E=0.06, lam=0.1, T0=1.0, a=3.0, u=1.0):
     class ToyPotential(WallGo.EffectivePotential):
         fieldCount = 1
         effectivePotentialError = 1e-12
+        unit = u                       # may be changed in place (model parameters updated, then the setup is re-run)
 
         def evaluate(self, fields, temperature):
             phi = fields.getField(0)
             T = np.asarray(temperature)
-            return D * (T ** 2 - (T0 * u) ** 2) * phi ** 2 - E * T * phi ** 3 + lam / 4 * phi ** 4 - a * T ** 4
+            return D * (T ** 2 - (T0 * self.unit) ** 2) * phi ** 2 - E * T * phi ** 3 + lam / 4 * phi ** 4 - a * T ** 4
 
     class ToyModel(WallGo.GenericModel):
         fieldCount = 1
